@@ -59,7 +59,8 @@ NodeOfEntry(e) == IF e.t = "dir" THEN DirNode ELSE FileNode(e.c, e.sz, e.mt)
 FsOf(es) == [p \in {es[i].p : i \in DOMAIN es} |->
                NodeOfEntry(es[CHOOSE i \in DOMAIN es : es[i].p = p])]
 
-(* comparison value of a file node under a FileComparison mode *)
+(* comparison value of a file node under a FileComparison mode; the bytes of *)
+(* a file are determined by (c, sz): content id padded to the size          *)
 CmpVal(n, cmp) == IF n.t # "file" THEN <<"none">>
-                  ELSE IF cmp = "HASH" THEN <<"H", n.c>> ELSE <<"M", n.sz, n.mt>>
+                  ELSE IF cmp = "HASH" THEN <<"H", n.c, n.sz>> ELSE <<"M", n.sz, n.mt>>
 =========================================================================
